@@ -58,6 +58,12 @@ def nilCheckIssues (i : Internals P O V) : Nat → List (Check P O) → Bool →
        else nilCheckIssues i (k + 1) cs typedNil)
     else nilCheckIssues i (k + 1) cs typedNil
 
+/-- Before /repo 7db47f1 an accepted nil (Optional / Nilable) was run through the refinements and custom checks too. -/
+def legacyNilVerdict (i : Internals P O V) : Out V :=
+  match nilCheckIssues i 0 i.checks false with
+  | [] => .okNil
+  | ps => .errChecks ps
+
 def checked (env : Env P O T V) (i : Internals P O V) (ptrIn : Bool) (v : V) : Out V :=
   let r := runChecksOn env i.ptrSchema ptrIn i.checks v
   if r.issues = [] then .okVal r.val else .errChecks r.issues
@@ -89,10 +95,8 @@ def nilPath (env : Env P O T V) (i : Internals P O V) : Out V :=
     | none, some p => checked env i false p
     | none, none =>
       if i.nonOptional then .errNonOptional
-      else if i.optional || i.nilable then
-        (match nilCheckIssues i 0 i.checks false with
-         | [] => .okNil
-         | ps => .errChecks ps)
+      else if i.optional || i.nilable then .okNil   -- /repo 7db47f1: an accepted nil only meets the overwrite checks
+                                                    -- (no issues from those); before: `legacyNilVerdict`
       else if i.admitsNil then .okNil
       else .errType
 
